@@ -13,6 +13,9 @@ pub struct Case {
     pub lang: String,
     pub text: String,
     pub th_bits: u64,
+    /// hint bytes for the own-token variant of clauses 1 and 3 (see util::apply_hints)
+    #[serde(default)]
+    pub hints: Vec<u8>,
 }
 pub struct C07;
 
@@ -22,10 +25,10 @@ impl Property for C07 {
         "C07"
     }
     fn rule(&self) -> String {
-        "Generated: (language, text, threshold) from the clean and dirty sentence generators (number words of every class placed next to each other so that words get rejected inside or right after a number in progress; scale words and ordinals as frequent as units), plus repeated-scale-word shapes. Differential oracle between the scanner and the validator: (1) any threshold: for each non-decimal occurrence, text2digits(the word tokens of its span joined by spaces) == Ok(occurrence text); (2) for every contiguous run p of <= 6 word tokens with text2digits(p) == Ok(d): scanning p alone (plain tokens, no annotation, threshold 0) yields exactly one occurrence and its text is d; (3) threshold 0: every word token outside all occurrences and not flagged by the language's annotation has text2digits(word) == Err. Non-trivial = distinct texts with two occurrences directly adjacent (only whitespace between them: a word was rejected by a number in progress), or a validated run of >= 2 words.".into()
+        "Generated: (language, text, threshold) from the clean and dirty sentence generators (number words of every class placed next to each other so that words get rejected inside or right after a number in progress; scale words and ordinals as frequent as units), plus repeated-scale-word shapes. Differential oracle between the scanner and the validator: (1) any threshold: for each non-decimal occurrence, text2digits(the word tokens of its span joined by spaces) == Ok(occurrence text); (2) for every contiguous run p of <= 6 word tokens with text2digits(p) == Ok(d): scanning p alone (plain tokens, no annotation, threshold 0) yields exactly one occurrence and its text is d; (3) threshold 0: every word token outside all occurrences and not flagged by the language's annotation has text2digits(word) == Err. Clauses (1) and (3) are also asserted on an own-token stream of the same tokens carrying random 'separated' / 'not a number part' hints. Non-trivial = distinct texts with two occurrences directly adjacent (only whitespace between them: a word was rejected by a number in progress), or a validated run of >= 2 words.".into()
     }
     fn strategy(&self, _tier: Tier) -> BoxedStrategy<Case> {
-        let from_sentence = text_case(30, 10).prop_map(|tc| Case { lang: tc.lang.clone(), text: tc.text(), th_bits: tc.th_bits });
+        let from_sentence = text_case(30, 10).prop_map(|tc| Case { lang: tc.lang.clone(), text: tc.text(), th_bits: tc.th_bits, hints: vec![] });
         // number-word salad: only number-ish classes, single spaces
         let salad = (lang_strategy(), proptest::collection::vec((0u8..8, any::<u16>(), any::<u16>()), 1..8), threshold_strategy()).prop_map(|(lang, ws, th_bits)| {
             let v = vocab_of(&lang);
@@ -41,9 +44,14 @@ impl Property for C07 {
                     }
                 })
                 .collect();
-            Case { lang, text: words.join(" "), th_bits }
+            Case { lang, text: words.join(" "), th_bits, hints: vec![] }
         });
-        prop_oneof![6 => from_sentence, 3 => salad].boxed()
+        (prop_oneof![6 => from_sentence, 3 => salad], prop_oneof![2 => Just(vec![]), 1 => proptest::collection::vec(any::<u8>(), 1..24)])
+            .prop_map(|(mut c, hints)| {
+                c.hints = hints;
+                c
+            })
+            .boxed()
     }
     fn cases(&self, tier: Tier) -> u64 {
         tier.pick(2_000_000, 25_000_000)
@@ -53,7 +61,7 @@ impl Property for C07 {
     }
     fn from_fuzz_bytes(&self, data: &[u8]) -> Option<Case> {
         let t = crate::fuzzdec::decode_text(data);
-        Some(Case { lang: t.lang.into(), text: t.text, th_bits: t.th_bits })
+        Some(Case { lang: t.lang.into(), text: t.text, th_bits: t.th_bits, hints: t.hints })
     }
     fn check(&self, c: &Case, obs: &mut Obs) -> Result<(), String> {
         let lg = lang(&c.lang);
@@ -128,6 +136,41 @@ impl Property for C07 {
                 }
             }
             obs.label("threshold-0-coverage-checked");
+        }
+        // own-token stream with 'separated' / 'not a number part' hints: clauses (1) and (3) again
+        if !c.hints.is_empty() {
+            let mut stream: Vec<Tk> = t.iter().enumerate().map(|(i, x)| Tk::new(i, &x.text)).collect();
+            if apply_hints(&mut stream, &c.hints) {
+                let so = occs(find_numbers(stream.iter(), lg, th));
+                let mut cov = vec![false; stream.len()];
+                for oc in &so {
+                    if oc.end > stream.len() || oc.start >= oc.end {
+                        return Err(format!("malformed span {:?} on the hinted stream of {:?}", oc, c.text));
+                    }
+                    for k in oc.start..oc.end {
+                        cov[k] = true;
+                    }
+                    if parse_numeral(&c.lang, &oc.text).map(|n| n.frac.is_some()).unwrap_or(false) {
+                        continue;
+                    }
+                    let words: Vec<&str> = stream[oc.start..oc.end].iter().filter(|x| is_word(&x.text)).map(|x| x.text.as_str()).collect();
+                    let phrase = words.join(" ");
+                    let v = text2digits(&phrase, lg);
+                    if v.as_deref().ok() != Some(oc.text.as_str()) {
+                        return Err(format!("hinted stream: scanner reports {:?} over the words {:?} but validating exactly those words gives {:?} (text {:?}, hints {:?}, th={})", oc.text, phrase, v, c.text, c.hints, fmt_th(c.th_bits)));
+                    }
+                }
+                if th == 0.0 {
+                    for (k, x) in stream.iter().enumerate() {
+                        if !cov[k] && !x.nan && is_word(&x.text) {
+                            if let Ok(d) = text2digits(&x.text, lg) {
+                                return Err(format!("hinted stream, threshold 0: the word {:?} (token {}) is a valid number ({}) on its own, is not flagged, yet lies in no occurrence (text {:?}, hints {:?}, occurrences {:?})", x.text, k, d, c.text, c.hints, so));
+                            }
+                        }
+                    }
+                }
+                obs.label("hinted-stream-checked");
+            }
         }
         if nontrivial {
             obs.nontrivial(&(&c.lang, &c.text));
